@@ -5,7 +5,8 @@ import gen_table as G
 RULE = ("generated scripts of 1-5 CREATE TABLE statements of the core column syntax, 1-25 columns each, every column with a "
         "random subset and order of NULL/NOT NULL, DEFAULT (ints of 1-21 digits, negative, strings, NULL, words), PRIMARY KEY, "
         "UNIQUE, REFERENCES [s.]t[(c)] [ON DELETE a][ON UPDATE a]; types of one/two words with (n)/(p,s); keyword case, spacing "
-        "around commas/parentheses, line layout and line ends (LF / CRLF) random; a quarter of the scripts name columns with keyword-like words "
+        "around commas/parentheses, line layout and line ends (LF / CRLF) random; a fifth of the scripts name columns with words that start other statements (begin, end, commit, update, select ...) at the "
+        "beginning of a line, a quarter with keyword-like words "
         "(comment, order, key, type ...), a third reference keyword-named columns; expected = harness/gen_table.expected_table per table, compared in "
         "full and in order. non-trivial = distinct script with >= 3 columns in total")
 PARTIAL = ["the theorem (Props/C01.v C01_columns_exact) is about the parser stage (lexer flag logic, LALR driver on the real tables, "
@@ -160,7 +161,20 @@ def run(ctx, res):
             nc = rng.choice([1, 2, 3, 4, 5, 6, 8, 12, 25]) if i % 5 == 0 else None
             tabs.append(G.gen_table(rng, ncols=nc, constraints=False, name="t%d_%d" % (i % 50, j), kw_refs=(i % 3 == 0),
                                     kw_names=(i % 4 == 0)))
-        text = "\n".join(G.render_table(t, rng, oneline=(rng.random() < 0.25)) for t in tabs) + "\n"
+        if i % 5 == 2:
+            # statement-like words as column names, one column per line (each name then starts a line)
+            for t in tabs:
+                pool = list(G.STMT_LIKE_NAMES)
+                rng.shuffle(pool)
+                taken = {c["name"].lower() for c in t["cols"]}
+                for c in t["cols"]:
+                    if rng.random() < 0.6 and pool and pool[-1].lower() not in taken:
+                        c["name"] = pool.pop()
+                        taken.add(c["name"].lower())
+            res.count("names:statement_like")
+            text = "\n".join(G.render_table(t, rng, oneline=False) for t in tabs) + "\n"
+        else:
+            text = "\n".join(G.render_table(t, rng, oneline=(rng.random() < 0.25)) for t in tabs) + "\n"
         if i % 6 == 1:
             text = text.replace("\n", "\r\n")          # Windows line ends
             res.count("layout:crlf")
